@@ -67,23 +67,39 @@ def run(F, R):
                 nan_ops.setdefault(name, {})[opname] = nan_bad[:2]
     f64f = F.fn(P + "::eval_range_f64")
     R.check("eval_range_f64" not in nan_ops, "C05.R1", "eval_range_f64:NaN", f"Double column: with a NaN row (writers exclude NaN from min/max) or a NaN literal the row group is pruned although `x op literal` holds under the engine's total order (NaN greatest, equal to itself); operators/cases: {nan_ops.get('eval_range_f64')}", f64f.loc(), dict(operators=sorted(nan_ops.get("eval_range_f64", {}))))
-    # definite_comparison: evaluate the final switch on effective_op
+    # the "every row matches" predicate: the generic helper definite_range(op, val, min, max) when it exists,
+    # otherwise the final match on effective_op inside definite_comparison
     d = F.fn(P + "::definite_comparison")
-    eo = d.locals_named("effective_op")
-    lmin, lmax, lval = d.locals_named("min"), d.locals_named("max"), d.locals_named("val")
-    start = None
-    for sb in range(d.n):
-        si = d.switch_info(sb)
-        if si and si[0] == "enum" and eo and place_local(si[1][0]) in eo:
-            start = sb
-    if start is None or not (lmin and lmax and lval):
-        R.undecided("C05.R1", "definite_comparison:final-match", "cannot find the final match on effective_op / min,max,val locals", d.loc())
+    if F.has(P + "::definite_range"):
+        dr = F.fn(P + "::definite_range")
+        start, lop, lv, lmn, lmx = 0, 1, 2, 3, 4
+        tgt = dr
+    else:
+        eo = d.locals_named("effective_op")
+        lmin, lmax, lval = d.locals_named("min"), d.locals_named("max"), d.locals_named("val")
+        start = None
+        for sb in range(d.n):
+            si = d.switch_info(sb)
+            if si and si[0] == "enum" and eo and place_local(si[1][0]) in eo:
+                start = sb
+        tgt = d
+        if start is not None and lmin and lmax and lval:
+            lop, lv, lmn, lmx = eo[-1], lval[-1], lmin[-1], lmax[-1]
+        else:
+            start = None
+    if start is None:
+        R.undecided("C05.R1", "definite:final-match", "cannot find the definite predicate (definite_range or the match on effective_op)", d.loc())
     else:
         names = None
-        for s in d.blocks[start]["s"]:
-            if s[1][0] == "discr":
-                names = {n: int(v) for v, n in s[1][3]}
-        lmn, lmx, lv = lmin[-1], lmax[-1], lval[-1]
+        for s_ in tgt.blocks[start]["s"]:
+            if s_[1][0] == "discr":
+                names = {n: int(v) for v, n in s_[1][3]}
+        if names is None:
+            # the switch may sit a few gotos after `start`
+            for bi in range(tgt.n):
+                for s_ in tgt.blocks[bi]["s"]:
+                    if s_[1][0] == "discr" and place_local(s_[1][1]) == lop:
+                        names = {n: int(v) for v, n in s_[1][3]}
         for opname, cmpop in OPS.items():
             bad, nanbad, n = [], [], 0
             try:
@@ -91,7 +107,7 @@ def run(F, R):
                     if mn > mx:
                         continue
                     n += 1
-                    res = k8.evaluate(d, {lmn: mn, lmx: mx, lv: v}, start=start, discr={eo[-1]: names[opname]})
+                    res = k8.evaluate(tgt, {lmn: mn, lmx: mx, lv: v}, start=start, discr={lop: names[opname]})
                     allx = all(sql_true(cmpop, x, v) for x in dom if mn <= x <= mx)
                     if res and not allx:
                         bad.append((mn, mx, v))
@@ -99,31 +115,46 @@ def run(F, R):
                     if mn > mx:
                         continue
                     for v in list(dom) + [k8.NAN]:
-                        res = k8.evaluate(d, {lmn: mn, lmx: mx, lv: v}, start=start, discr={eo[-1]: names[opname]})
-                        # a NaN row (excluded from stats) must also satisfy the predicate for "every row matches"
+                        res = k8.evaluate(tgt, {lmn: mn, lmx: mx, lv: v}, start=start, discr={lop: names[opname]})
                         if res and not sql_true(cmpop, k8.NAN, v):
                             nanbad.append((mn, mx, v))
             except k8.Undecided as e:
-                R.undecided("C05.R1", f"definite_comparison:{opname}", str(e), d.loc(start)); continue
-            R.check(not bad, "C05.R1", f"definite_comparison:{opname}", f"'every row matches' is claimed although some x in [min,max] fails, e.g. {bad[:3]}", d.loc(start), dict(orderings_evaluated=n))
+                R.undecided("C05.R1", f"definite_comparison:{opname}", str(e), tgt.loc(start)); continue
+            R.check(not bad, "C05.R1", f"definite_comparison:{opname}", f"'every row matches' is claimed although some x in [min,max] fails, e.g. {bad[:3]}", tgt.loc(start), dict(orderings_evaluated=n, function=tgt.path))
             if nanbad:
                 nan_ops.setdefault("definite_comparison", {})[opname] = nanbad[:2]
     R.check("definite_comparison" not in nan_ops, "C05.R1", "definite_comparison:NaN", f"Double column: 'every row matches' is claimed although a NaN row (not reflected in min/max) fails the predicate: the row filter is dropped and the NaN row is kept; operators/cases: {nan_ops.get('definite_comparison')}", d.loc(), dict(operators=sorted(nan_ops.get("definite_comparison", {}))))
     # ---------------- R2
-    lossy = []
+    narrowing, floaty = [], {}
     for g in F.in_file("src/storage/row_group_pruning.rs"):
         for i, j, dst, rv, line in g.stmts():
             if rv[0] == "cast" and rv[1].startswith(("IntToInt", "IntToFloat")):
-                if (rv[3], rv[4]) in (("i64", "i32"), ("i64", "f64"), ("i64", "f32"), ("u64", "f64"), ("i64", "i16")):
-                    lossy.append((g, i, rv))
+                if (rv[3], rv[4]) in (("i64", "i32"), ("i64", "i16"), ("u64", "u32"), ("i64", "i8")):
+                    narrowing.append((g, i, rv))
+                if (rv[3], rv[4]) in (("i64", "f64"), ("i64", "f32"), ("u64", "f64")):
+                    floaty.setdefault(F.bodies[g.path].get("root") or g.path, []).append((g, i))
     seen = {}
-    for g, bb, rv in lossy:
-        key = f"{F.bodies[g.path]['name'] or g.path}:{rv[3]}->{rv[4]}"
-        seen.setdefault(key, []).append((g, bb))
+    for g, bb, rv in narrowing:
+        seen.setdefault(f"{F.bodies[g.path]['name'] or g.path}:{rv[3]}->{rv[4]}", []).append((g, bb))
     for key, lst in sorted(seen.items()):
         g, bb = lst[0]
-        R.bad("C05.R2", key, f"a statistic/literal is converted {key.split(':')[1]} before being compared: values outside the narrower type wrap (or round), so a row group that can match is pruned / one that does not fully match is declared fully matching", g.loc(bb), dict(sites=len(lst)))
-    R.ok("C05.R2", "casts-examined", dict(lossy=len(lossy)))
+        R.bad("C05.R2", key, f"a statistic/literal is narrowed {key.split(':')[1]} before being compared: values outside the narrower type wrap, so a row group that can match is pruned", g.loc(bb), dict(sites=len(lst)))
+    # i64 -> f64 is exact only below 2^53: a function that converts integer statistics to f64 must also have an exact
+    # integer route (an in-crate comparison helper called with i64 bounds and literal, or i64 comparisons) for the
+    # integer-statistics / integer-literal case
+    for root, lst in sorted(floaty.items()):
+        g0 = F.fn(root)
+        exact = False
+        for h in F.family(root):
+            for c in h.calls():
+                if c.name in F.bodies and sum(1 for t in c.argtys if t == "i64") >= 3:
+                    exact = True
+            for i, j, dst, rv, line in h.stmts():
+                if rv[0] == "bin" and rv[1] in ("Lt", "Le", "Gt", "Ge", "Eq", "Ne") and rv[4] == "i64" and not op_is_const(rv[2]) and not op_is_const(rv[3]):
+                    exact = True
+        g, bb = lst[0]
+        R.check(exact, "C05.R2", f"{F.bodies[root]['name']}:i64->f64", "integer statistics and literals are compared as f64 only (rounding above 2^53 can 'prove' a row group whose last row fails the predicate, or prune one that matches)", g.loc(bb), dict(float_casts=len(lst)))
+    R.ok("C05.R2", "casts-examined", dict(narrowing=len(narrowing), float_conversion_functions=len(floaty)))
     # ---------------- R3
     def fallthrough_classes(path, scrut_suffixes):
         g = F.fn(path)
@@ -146,6 +177,8 @@ def run(F, R):
         for scrut, cls, line in ft:
             if scrut.endswith("BinaryOp") and path.endswith(("row_group_might_match", "row_group_definitely_matches")):
                 continue  # the `_ =>` arm of the operator match delegates to the comparison helper (checked below)
+            if cls == "None":
+                continue  # an Option-valued intermediate (e.g. "no integer bounds"), not a verdict
             n += 1
             okc = cls in (f"lit:t:{want}", f"ret:lit:t:{want}") or (scrut.endswith("BinaryOp") and path.endswith("flip_op"))
             nm = F.bodies[path]["name"]
@@ -187,7 +220,8 @@ def run(F, R):
     R.check(okn, "C05.R3", "might_match:Not=!definitely", "NOT p is not answered by !definitely_matches(p)", mm.loc(), dict(calls=len(nots)))
     # ---------------- R4
     cmp_blocks = [i for i, j, dst, rv, line in d.stmts() if rv[0] == "bin" and rv[1] in ("Lt", "Le", "Gt", "Ge", "Eq", "Ne") and rv[4] == "f64"]
-    R.floor("C05.R4", "float comparisons in definite_comparison", len(cmp_blocks), 6)
+    cmp_blocks += [c.bb for c in d.calls() if c.name == P + "::definite_range"]
+    R.floor("C05.R4", "definite comparisons in definite_comparison", len(cmp_blocks), 2)
     bad4 = []
     for bb in sorted(set(cmp_blocks)):
         gs = guards.guards_of(d, bb, require_err=False)
